@@ -33,7 +33,8 @@ OBSERVING = ("poll", "get-offset", "topic", "stats")
 
 
 def run_node_property(prop, tier, seed, replay, t0, *, module, gen, n_quick, n_thorough, spec_prefixes,
-                      corr_kinds, assumptions, engine="sys", extra_tb=None, maxops_thorough=90):
+                      corr_kinds, assumptions, engine="sys", extra_tb=None, maxops_thorough=90,
+                      extra_coverage=None, pre_messages=None, pre_rc=0):
     # 1-2. proofs
     out = vlib.lean_build([module, "judge"])
     names, examples, axioms, bad = vlib.audit(module)
@@ -113,10 +114,11 @@ def run_node_property(prop, tier, seed, replay, t0, *, module, gen, n_quick, n_t
         if k.startswith("op:"):
             opdist[k[3:]] = v
 
-    rc = 0
-    messages = []
-    for what in known_hits:
-        messages.append(f"KNOWN-FINDING: property={prop} {what}")
+    rc = pre_rc
+    messages = list(pre_messages or [])
+    for kf in known:
+        n_hits = known_hits.get(kf["what"], 0)
+        messages.append(f"KNOWN-FINDING: property={prop} {kf['what']} (reproduced {n_hits}x in this run)")
     replay_path = None
     if bad:
         replay_path = vlib.write_replay(prop, "audit.txt", "\n".join(bad))
@@ -181,7 +183,23 @@ def run_node_property(prop, tier, seed, replay, t0, *, module, gen, n_quick, n_t
         "spec_violations": len(spec_v), "corr_diffs": len(corr_d), "known_finding_hits": known_hits,
         "exhaustive": False,
     }
-    vlib.write_evidence(prop, tier, seed, coverage, assumptions, time.time() - t0, len(spec_v) + (1 if (corr_d or bad) else 0))
+    if extra_coverage:
+        for k, v in extra_coverage.items():
+            if k == "samples":
+                coverage["samples"] = coverage["samples"] + v
+            elif k == "trusted_base":
+                coverage["trusted_base"] = v + [x for x in coverage["trusted_base"] if x not in v]
+            elif k in ("evaluations",):
+                coverage[k] = coverage[k] + v
+            elif k in ("obligations", "discharged", "theorems", "nonvacuity_examples", "axioms_used", "rule"):
+                coverage["node_" + k] = coverage[k]
+                coverage[k] = v
+            else:
+                coverage[k] = v
+        if pre_rc:
+            coverage["discharged"] = 0
+    vlib.write_evidence(prop, tier, seed, coverage, assumptions, time.time() - t0,
+                        len(spec_v) + (1 if (corr_d or bad) else 0) + (1 if pre_rc else 0))
     for m in messages:
         print(m)
     if rc == 0:
@@ -470,15 +488,26 @@ def run_c09(prop, tier, seed, replay, t0):
                     {"record_root_like": tables[0][1][N] if len(tables[0][1]) > N else ""}],
         "panics": len(panics), "unsound": len(unsound),
     }
-    vlib.write_evidence(prop, tier, seed, coverage, [
-        "history part (permission updates on open sessions) is exercised by the node traces of C10",
-        "completeness is not claimed (the property is one-directional: no escalation)"],
-        time.time() - t0, (1 if rc else 0))
-    for m in msgs:
-        print(m)
-    if rc == 0:
-        print(f"OK property={prop} obligations={obligations} rules={len(rules)} evaluations={evaluations} exhaustive=true")
-    return rc
+    import gen_auth
+    coverage["rule"] = "TABLES: " + coverage["rule"]
+    if replay and replay.endswith(".ops"):
+        return run_node_property(prop, tier, seed, replay, t0, module=module, gen=gen_auth.gen, n_quick=0, n_thorough=0,
+                                 spec_prefixes=["unauthenticated-allowed", "unauthorized-allowed"], corr_kinds=None,
+                                 assumptions=[])
+    if translation_error or proof_error:
+        # the node part needs the generated rules to build; report what we have
+        vlib.write_evidence(prop, tier, seed, coverage, ["translation or proof failed: node history part not run"],
+                            time.time() - t0, 1)
+        for m in msgs:
+            print(m)
+        return 1
+    return run_node_property(
+        prop, tier, seed, None, t0, module=module, gen=gen_auth.gen, n_quick=80, n_thorough=1500,
+        spec_prefixes=["unauthenticated-allowed", "unauthorized-allowed"],
+        corr_kinds=None,
+        assumptions=ASSUME_NODE + ["completeness is not claimed (the property is one-directional: no escalation)",
+                                   "passwords are modelled by the string itself (scheme law: verify p (hash q) iff p = q)"],
+        extra_coverage=coverage, pre_messages=msgs, pre_rc=rc)
 
 
 PROPS["C09"] = {"run": run_c09}
